@@ -283,7 +283,7 @@ func checkC12(c *Check) {
 	inSameLoop := inLoop(cb) && inLoop(read) && reachesInstr(read, cb) && reachesInstr(cb, read)
 	c.Cond(inSameLoop, "once-verbatim-in-order", "read and callback form one loop", p.InstrPos(cb), "each iteration reads one record and delivers it", "the read and the callback are not in one loop")
 	_ = nl
-	skip := searchAvoiding(ing, read, isRead, isCb)
+	skip := searchAvoidingDead(ing, read, isRead, isCb, func(b *ssa.BasicBlock, si int) bool { return deadEmptyRecordEdge(read, nl, b, si) })
 	c.Cond(skip == nil, "once-verbatim-in-order", "every iteration delivers its record or ends the loop", p.InstrPos(read), "no path from a read to the next read avoids the callback", "the loop can go from one read to the next without invoking the callback: a complete record is skipped, or a read error (end-of-stream) is ignored and the loop spins")
 	again := searchAvoiding(ing, cb, isCb, isRead)
 	c.Cond(again == nil, "once-verbatim-in-order", "a record is delivered at most once", p.InstrPos(cb), "the callback is not reachable again before the next read", "the same record can be delivered twice")
@@ -541,4 +541,96 @@ func returnsOnEdge(r *Resolver, fn *ssa.Function, b *ssa.BasicBlock, val ssa.Val
 		return false, "no return on this edge: the loop continues"
 	}
 	return true, ""
+}
+
+// deadEmptyRecordEdge: the edge (b -> b.Succs[si]) requires the string
+// result of the delimiter read to be empty although b is dominated by the
+// nil-error edge nl of that read. (*bufio.Reader).ReadString, ReadBytes and
+// ReadSlice return err == nil only when the data ends in the delimiter, so
+// the data holds at least one byte there and the edge is infeasible.
+func deadEmptyRecordEdge(read *ssa.Call, nl *ssa.BasicBlock, b *ssa.BasicBlock, si int) bool {
+	if nl == nil || len(b.Instrs) == 0 || len(nl.Preds) != 1 || !nl.Dominates(b) {
+		return false
+	}
+	callee := read.Common().StaticCallee()
+	if callee == nil || callee.Pkg == nil || callee.Pkg.Pkg.Path() != "bufio" {
+		return false
+	}
+	switch callee.Name() {
+	case "ReadString", "ReadBytes", "ReadSlice":
+	default:
+		return false
+	}
+	iff, ok := b.Instrs[len(b.Instrs)-1].(*ssa.If)
+	if !ok {
+		return false
+	}
+	cmp, ok := iff.Cond.(*ssa.BinOp)
+	if !ok {
+		return false
+	}
+	isData := func(v ssa.Value) bool {
+		ex, ok := v.(*ssa.Extract)
+		return ok && ex.Index == 0 && ex.Tuple == ssa.Value(read)
+	}
+	emptyWhenTrue := false // the condition's true edge means "empty"
+	switch {
+	case isData(cmp.X) || isData(cmp.Y):
+		other := cmp.Y
+		if isData(cmp.Y) {
+			other = cmp.X
+		}
+		if s, ok := constStr(other); !ok || s != "" {
+			return false
+		}
+		switch cmp.Op {
+		case token.EQL:
+			emptyWhenTrue = true
+		case token.NEQ:
+			emptyWhenTrue = false
+		default:
+			return false
+		}
+	default:
+		var l ssa.Value
+		var c *ssa.Const
+		for _, pr := range [][2]ssa.Value{{cmp.X, cmp.Y}, {cmp.Y, cmp.X}} {
+			call, ok := pr[0].(*ssa.Call)
+			if !ok {
+				continue
+			}
+			if bi, ok := call.Call.Value.(*ssa.Builtin); !ok || bi.Name() != "len" || len(call.Call.Args) != 1 || !isData(call.Call.Args[0]) {
+				continue
+			}
+			if k, ok := pr[1].(*ssa.Const); ok && k.Value != nil {
+				l, c = pr[0], k
+			}
+		}
+		if l == nil || !lenEmptinessTest(cmp, l, c) {
+			return false
+		}
+		op := cmp.Op
+		if cmp.Y == l {
+			switch op {
+			case token.LSS:
+				op = token.GTR
+			case token.GTR:
+				op = token.LSS
+			case token.LEQ:
+				op = token.GEQ
+			case token.GEQ:
+				op = token.LEQ
+			}
+		}
+		switch op {
+		case token.EQL, token.LEQ, token.LSS:
+			emptyWhenTrue = true
+		default:
+			emptyWhenTrue = false
+		}
+	}
+	if emptyWhenTrue {
+		return si == 0
+	}
+	return si == 1
 }
